@@ -489,6 +489,7 @@ class FakeCluster(object):
         self.peer_overrides = {}     # (viewer idx, peer idx) -> column overrides
         self.extra_peer_rows = {}    # viewer idx -> extra raw rows
         self.events_pushed = []
+        self.updown = []             # (log seq, node idx, up?) for every crash/restart
         self.polls = []
         self.snapshots_served = []
         self.snapshot_id = 0
@@ -569,6 +570,7 @@ class FakeCluster(object):
         if not n.up:
             return
         n.up = False
+        self.updown.append((self.sim.nlog, i, False))
         self.net.count('crash')
         self.sim.rec('fault', 'crash n%d (%s)' % (i, how))
         for nc in n.conns:
@@ -586,6 +588,7 @@ class FakeCluster(object):
         if n.up:
             return
         n.up = True
+        self.updown.append((self.sim.nlog, i, True))
         n.mode = 'accept'
         n.prepared = {}
         n.generation += 1
